@@ -168,6 +168,9 @@ type RunOpts struct {
 	PriorRepo string
 	// PriorFile, with ReuseLinter, makes the Linter instance lint that single file (LintFile) first.
 	PriorFile string
+	// PriorHideDir, with PriorFile: that directory (a repository's .git) does not exist yet while the
+	// earlier call runs - the repository is initialised between the two calls.
+	PriorHideDir string
 	// PriorArgs, with ReuseLinter and the command line entry point, makes the same Command object
 	// run Main with these arguments first.
 	PriorArgs []string
@@ -271,7 +274,14 @@ func RunLint(w *World, c *Chooser, o RunOpts) *LintResult {
 		if shared != nil && w.API != APIMain && o.PriorFile != "" {
 			pw := *w
 			pw.API, pw.Files = APIFile, []string{o.PriorFile}
+			hidden := o.PriorHideDir != "" && w.Disk.Dirs[o.PriorHideDir]
+			if hidden {
+				delete(w.Disk.Dirs, o.PriorHideDir)
+			}
 			lintOnce(&pw, &LintResult{}, shared)
+			if hidden {
+				w.Disk.Dirs[o.PriorHideDir] = true
+			}
 		}
 		if shared != nil {
 			shared.failOut = 0
